@@ -82,7 +82,19 @@ func (w *World) startProbe(kind string) {
 			return
 		}
 		pr.pod = p
-		pr.before = w.storeIPsOfKey(p.Key)
+		// the IPs the identity holds that pertain to this request: all of them without requested ranges, otherwise
+		// those inside a requested range (an IP left over from an earlier template is not handed to this pod)
+		for _, ip := range w.storeIPsOfKey(p.Key) {
+			in := len(p.Ranges) == 0
+			for _, l := range p.Ranges {
+				if hasStr(l, ip) {
+					in = true
+				}
+			}
+			if in {
+				pr.before = append(pr.before, ip)
+			}
+		}
 		o := w.K.Get("pods", p.NS, p.Name)
 		podJ, nodesJ := o.JSON, w.nodesJSON()
 		pr.task = w.S.Spawn("probe:c06:"+tag+":"+p.key(), w.proc, func() { c06Task(inst, tag, podJ, nodesJ) })
@@ -341,7 +353,7 @@ func (w *World) evalC06(pr *probeState) {
 		want := pr.want // computed at the instant filter returned (before the bind allocated anything)
 		if strings.Join(want, ",") != strings.Join(got, ",") {
 			w.fail("C06.filter-node-set", "filter-node-set",
-				"fresh default-policy pod %s (ranges %v): filter offered %v, nodes with a free routable IP are %v", p.key(), p.App.Ranges, got, want)
+				"fresh default-policy pod %s (ranges %v): filter offered %v, nodes with a free routable IP are %v", p.key(), p.Ranges, got, want)
 			return
 		}
 		w.S.Stat("c06.exact-node-set-checked")
@@ -549,7 +561,7 @@ func (w *World) onProbeFiltered(pr *probeState) {
 		return
 	}
 	if cs := w.confInForce(w.memdump[pr.tag]); cs != nil {
-		pr.want = w.expectedNodesFresh(cs, pr.pod.App.Ranges)
+		pr.want = w.expectedNodesFresh(cs, pr.pod.Ranges)
 		pr.haveWant = true
 	}
 }
